@@ -148,6 +148,7 @@ def run_load(shard, tier, acc):
         has_m = any(s == 'M' for s, _ in spec['grammar'])
         case0 = {'kind': 'load', 'spec': spec}
         streams = {}
+        alive = {}
         for sb, sc in itertools.product([False, True], repeat=2):
             acc.evals += 1
             case = dict(case0, skip_brute=sb, all_lower=sc)
@@ -163,6 +164,7 @@ def run_load(shard, tier, acc):
                 acc.fail(case, msg, sig)
                 continue
             streams[(sb, sc)] = stream(Qc, g)
+            alive[(sb, sc)] = (g, types, base)
             # guess level (one ruleset in three, and every ruleset whose OMEN model has capitals): what each pre-terminal of the flagged run writes
             # is the reference expansion under the flags; a Markov pre-terminal writes its OMEN levels whatever the flags are
             om = spec.get('omen', R.DEFAULT_OMEN)
@@ -185,6 +187,11 @@ def run_load(shard, tier, acc):
                                  % (pt, sorted(lines)[:4], len(lines), sorted(want)[:4], len(want)), 'guesses')
                         break
                 acc.count('preterminals_expanded_under_flags', len(streams[(sb, sc)]))
+        # E-hist over loads: the grammars loaded earlier are still what they were when the later ones have been loaded under other flags
+        for (sb, sc), (g, types, base) in alive.items():
+            msg = compare_loaded(g, types, base)
+            if msg:
+                acc.fail(dict(case0, skip_brute=sb, all_lower=sc), 'after the same ruleset was loaded again under other flags, the grammar loaded earlier has changed: ' + msg, 'loaded-grammar-changed-later')
         if len(streams) < 4:
             tree.rmtree(rdir)
             continue
